@@ -252,6 +252,8 @@ Fixpoint materialize (e : pexpr) : eexpr :=
   end.
 
 Definition peval (ctx : vctx) (e : pexpr) : outcome value := eval ctx (materialize e).
+(* all arguments, left to right, stopping at the first failure (what FunctionCall.Evaluate does first) *)
+Definition pevals (ctx : vctx) (args : list pexpr) : outcome (list value) := evals (eval ctx) (map materialize args).
 
 (* every call in the expression uses a descriptor whose body is modelled *)
 Fixpoint pmodelled (e : pexpr) : bool :=
